@@ -66,13 +66,29 @@ def family(tier):
     for kt in ("identifier", "ipaddr-or-hostname"):
         for lab, items in M.selections(1):
             fam.append((lab, items, 1, kt, {}, 3))
+    # derived containers whose key type differs from the base's (both directions, and back again)
+    for wl in ("pluskey-string-defaults", "plusmultikey-string-defaults", "pluskey-integer-defaults"):
+        for base_kt, cut_kt in ((None, "identifier"), ("identifier", None), ("identifier", "basic-key"),
+                                ("basic-key", "identifier"), (None, None)):
+            if wl.startswith("pluskey") and base_kt == "identifier" and cut_kt != "identifier":
+                pass        # 'Da'/'db' do not collide under basic-key, so the derived schema is legal
+            for lab in ((), ("key-string-default",)):
+                fam.append((lab, M.items_from_labels(lab), 1, None, {"derived": (wl, base_kt, cut_kt)}, 3))
     return fam
 
 
 def build(member):
     lab, items, placement, kt, envkw, depth = member
+    envkw = dict(envkw)
+    derived = envkw.pop("derived", None)
     env = M.type_env(**(dict(envkw, keytype=kt) if kt else envkw))
     cut_dt = M.SECT_DT_WRAP if envkw.get("l1_datatype") == M.SECT_DT_WRAP else None
+    if derived:
+        # the container under test is DERIVED: it extends 'wb', which declares the wildcard item under
+        # another key type; defaults must be re-keyed from the keys as written
+        wild_label, base_kt, cut_kt = derived
+        wb = M.SType("wb", M.items_from_labels([wild_label], [dt_menu(dt) for dt in DATATYPES]), keytype=base_kt)
+        return M.place(items, placement, env + (wb,), cut_datatype=cut_dt, cut_extends="wb", cut_keytype=cut_kt)
     return M.place(items, placement, env, keytype=kt, cut_datatype=cut_dt)
 
 
